@@ -281,13 +281,16 @@ def ordinal(n: int) -> str:
             return '%dth' % n
 
 
+DOUBLE_PATTERN = re.compile(r'^[+-]?(?:[0-9]+(?:\.[0-9]*)?|\.[0-9]+)(?:[Ee][+-]?[0-9]+)?$')
+
+
 def get_double(value: FloatArgType, xsd_version: str | None = None) -> float:
     if isinstance(value, str):
         value = collapse_white_spaces(value)
         if value in NUMERIC_INF_OR_NAN and (xsd_version != '1.0' or value != '+INF'):
             if value == 'NaN':
                 return math.nan  # for NaN use the predefined instance to keep identity
-        elif value.lower() in INVALID_NUMERIC:
+        elif DOUBLE_PATTERN.match(value) is None:  # float() accepts 'nan', '1_0', non-ASCII digits, ...
             raise ValueError(f'invalid value {value!r} for xs:double/xs:float')
     elif math.isnan(value):
         return math.nan
